@@ -186,24 +186,45 @@ Print Assumptions C18_vertex_in_leg.
 (* ------------------------------------------------------------------ the cached path (Drillhole._locations) is never stale *)
 (* histories of collar changes, survey changes, position queries and add_data calls on one hole: the implementation
    (cache reset by the collar and surveys setters, filled by the first use) returns exactly what the cache-free
-   specification returns, in which the path is recomputed from the CURRENT collar and surveys at every use *)
+   specification returns, in which the path is recomputed from the CURRENT collar and surveys at every use.
+   SCOPE: histories are sequences of API CALLS ([d_api]).  Not calls, and excluded: (1) writing into the array the `collar`
+   getter hands out, `well.collar["x"] = v`: modelled (op DCollarX) and REFUTED below; (2) writing into the array `locations`
+   returns (`l = well.locations; l[:] = 7` overwrites the cache itself): not modelled.  Also outside the theorems: survey
+   tables are stored as float32 by the library while the model computes over exact rationals (the correspondence uses values
+   exactly representable in float32), and np.argsort's order of tied entries (modelled as stable; see C18_sort_keeps_rows). *)
 Theorem C18_path_cache_coherent : forall (ang : Type) (dir : ang -> V3) collar (s : list (Q * ang)) ops,
+  Forall (d_api ang) ops ->
   snd (drun dir (dfresh collar s) ops) = snd (drun_spec dir (dfresh collar s) ops).
 Proof.
-  intros ang dir collar s ops. apply drun_spec_eq; [left; reflexivity|left; reflexivity|repeat split].
+  intros ang dir collar s ops Ha. apply drun_spec_eq; [exact Ha|left; reflexivity|left; reflexivity|repeat split].
 Qed.
 Print Assumptions C18_path_cache_coherent.
 
-(* after ANY such history a query returns the desurvey of the current collar and surveys (so, by C18_collar_at_zero,
-   depth 0 is the CURRENT collar), and an add_data call places its vertices with the current path *)
+(* after ANY history of API calls a query returns the desurvey of the current collar and surveys (so, by
+   C18_collar_at_zero, depth 0 is the CURRENT collar), and an add_data call places its vertices with the current path *)
 Theorem C18_current_path_after_history : forall (ang : Type) (dir : ang -> V3) collar (s : list (Q * ang)) ops ds subs,
+  Forall (d_api ang) ops ->
   let h := fst (drun dir (dfresh collar s) ops) in
   snd (dstep dir h (DQuery ds)) = Some (OQuery (map (desurvey dir (d_collar h) (d_surveys h)) ds))
   /\ d_data (fst (dstep dir h (DCall subs))) = hcall (pos_of dir (d_collar h) (d_surveys h)) (d_data h) subs.
 Proof.
-  intros ang dir collar s ops ds subs h. apply dstep_current. apply drun_coherent. left. reflexivity.
+  intros ang dir collar s ops ds subs Ha h. apply dstep_current. apply drun_coherent; [exact Ha|]. left. reflexivity.
 Qed.
 Print Assumptions C18_current_path_after_history.
+
+Definition C18_path_cache_coherent_full : Prop := forall (ang : Type) (dir : ang -> V3) collar (s : list (Q * ang)) ops,
+  snd (drun dir (dfresh collar s) ops) = snd (drun_spec dir (dfresh collar s) ops).
+
+(* REFUTED: query, then `well.collar["x"] = 100` (accepted), then query depth 0: the hole reports collar (100, 0, 0) but the
+   position at depth 0 is still the old collar (open finding collar-inplace-stale) *)
+Theorem C18_collar_inplace_refuted : ~ C18_path_cache_coherent_full.
+Proof.
+  intros H.
+  specialize (H azdip dir_exact (0, 0, 0)%Q [ (0, (0, -90)); (10, (0, -90)) ]%Q
+                [DQuery [0%Q]; DCollarX false 100%Q; DQuery [0%Q]]).
+  vm_compute in H. discriminate.
+Qed.
+Print Assumptions C18_collar_inplace_refuted.
 
 Example C18_cache_nonvacuous :
   let s := [ (0, (30, 0)); (50, (90, 0)) ]%Q in
